@@ -35,7 +35,7 @@ func init() {
 				return 1_500_000
 			}, Run: c06Arc,
 				Min: map[string]int64{"arcs": 100000, "relative": 20000, "absolute": 20000, "scaled_up_radii": 10000, "large_arc": 20000, "sweep_positive": 20000, "sweep_negative": 20000,
-					"zero_radius": 5000, "cubics_1": 1000, "cubics_2": 1000, "cubics_3": 1000, "cubics_4": 1000, "negative_radius": 5000}},
+					"zero_radius": 5000, "lattice_mode": 20000, "lattice_endpoint_equals_pen_pixels": 5000, "cubics_1": 1000, "cubics_2": 1000, "cubics_3": 1000, "cubics_4": 1000, "negative_radius": 5000}},
 		},
 	})
 }
@@ -49,12 +49,25 @@ func c06Arc(c *run.Ctx, idx uint64) {
 		vb.MinX, vb.MinY = float32(r.Uniform(-80, 20)), float32(r.Uniform(-80, 20))
 		vb.MaxX, vb.MaxY = vb.MinX+float32(r.Uniform(1, 150)), vb.MinY+float32(r.Uniform(1, 150))
 	}
+	// Lattice mode: integer viewBox bounds, integer scale factors and integer
+	// coordinates, so that numbers of *different coordinate spaces* coincide
+	// (a pen at pixel (8,16) and an end point at viewBox (8,16)): confusing the
+	// spaces only shows on such inputs.
+	lattice := r.Chance(1, 8)
+	if lattice {
+		vb = ivg.ViewBox{MinX: float32(r.Range(-40, 0)), MinY: float32(r.Range(-40, 0))}
+		vb.MaxX, vb.MaxY = vb.MinX+float32(r.Range(8, 64)), vb.MinY+float32(r.Range(8, 64))
+		c.Count("lattice_mode", 1)
+	}
 	vw, vh := float64(vb.MaxX)-float64(vb.MinX), float64(vb.MaxY)-float64(vb.MinY)
 	// rectangle with independent scales in [0.2, 5]
 	w := int(math.Max(1, math.Round(vw*r.LogUniform(0.2, 5))))
 	h := int(math.Max(1, math.Round(vh*r.LogUniform(0.2, 5))))
 	if r.Chance(1, 6) {
 		w, h = r.Range(1, 300), r.Range(1, 300)
+	}
+	if lattice {
+		w, h = int(vw)*r.Pick(1, 2, 3, 4, 8), int(vh)*r.Pick(1, 2, 3, 4, 8)
 	}
 	rect := image.Rect(0, 0, w, h).Add(image.Pt(r.Intn(50), r.Intn(50)))
 	sx, sy := float64(w)/vw, float64(h)/vh
@@ -65,9 +78,29 @@ func c06Arc(c *run.Ctx, idx uint64) {
 	ang := r.Uniform(0, 2*math.Pi)
 	ex := float32(float64(x0) + d*math.Cos(ang))
 	ey := float32(float64(y0) + d*math.Sin(ang))
+	if lattice {
+		x0, y0 = float32(r.Range(-40, 40)), float32(r.Range(-40, 40))
+		ex, ey = float32(r.Range(-40, 40)), float32(r.Range(-40, 40))
+		switch r.Intn(4) {
+		case 0:
+			// the end point's viewBox coordinates equal the pen's pixel coordinates
+			ex, ey = float32(sx*(float64(x0)-mx)), float32(sy*(float64(y0)-my))
+			c.Count("lattice_endpoint_equals_pen_pixels", 1)
+		case 1:
+			// the end point's pixel coordinates equal the pen's viewBox coordinates
+			ex, ey = float32(float64(x0)/sx+mx), float32(float64(y0)/sy+my)
+		}
+		if ex == x0 && ey == y0 {
+			ex += 3
+		}
+		d = math.Hypot(float64(ex-x0), float64(ey-y0))
+	}
 	fac := r.PickF(0.3, 0.999, 1.001, 1.5, 10)
 	rx := float32(d / 2 * fac * r.Uniform(0.5, 1.5))
 	ry := float32(d / 2 * fac * r.Uniform(0.5, 1.5))
+	if lattice && r.Bool() {
+		rx, ry = float32(math.Round(float64(rx))+1), float32(math.Round(float64(ry))+1)
+	}
 	if r.Chance(1, 4) {
 		rx = -rx
 		c.Count("negative_radius", 1)
@@ -100,7 +133,7 @@ func c06Arc(c *run.Ctx, idx uint64) {
 	z.SetRasterizer(rz, rect)
 	z.Reset(vb, ivg.DefaultPalette)
 	z.StartPath(0, x0, y0)
-	if r.Chance(1, 3) {
+	if r.Chance(1, 3) && !lattice {
 		// move the pen by a relative line first, so that it is not a mapped float32 point
 		z.RelLineTo(float32(r.Uniform(-1, 1)), float32(r.Uniform(-1, 1)))
 	}
